@@ -1033,11 +1033,25 @@ def inline_helpers(mod: Module, func: ast.FunctionDef, depth: int = 2, only_priv
                     return ast.copy_location(_copy.deepcopy(subst[n.id]), n)
                 return n
 
+        simple = lambda e: isinstance(e, (ast.Name, ast.Constant)) or (isinstance(e, ast.Attribute) and isinstance(e.value, ast.Name))
+        tnames = [st.target.id] if isinstance(st.target, ast.Name) else [x.id for x in st.target.elts] if isinstance(st.target, (ast.Tuple, ast.List)) and all(isinstance(x, ast.Name) for x in st.target.elts) else None
+        body_stores = {n.id for b in st.body for n in ast.walk(b) if isinstance(n, ast.Name) and isinstance(n.ctx, ast.Store)}
+
         def put(stmts_):
             out_ = []
             for b in stmts_:
                 if isinstance(b, ast.Expr) and isinstance(b.value, ast.Yield):
                     val = b.value.value if b.value.value is not None else ast.Constant(value=None)
+                    vals = [val] if isinstance(st.target, ast.Name) else list(val.elts) if isinstance(val, (ast.Tuple, ast.List)) else None
+                    if tnames is not None and vals is not None and len(vals) == len(tnames) and all(simple(v_) for v_ in vals) and not (set(tnames) & body_stores):
+                        # the loop variables are plain copies of what is yielded: substitute them in the consumer's body (no intermediate tuple assignment)
+                        sub_ = dict(zip(tnames, vals))
+
+                        class S2(ast.NodeTransformer):
+                            def visit_Name(self, n):
+                                return ast.copy_location(_copy.deepcopy(sub_[n.id]), n) if n.id in sub_ and isinstance(n.ctx, ast.Load) else n
+                        out_.extend(S2().visit(_copy.deepcopy(x_)) for x_ in st.body)
+                        continue
                     out_.append(ast.copy_location(ast.Assign(targets=[_copy.deepcopy(st.target)], value=val), st))
                     out_.extend(_copy.deepcopy(st.body))
                     continue
